@@ -233,9 +233,15 @@ Close == /\ Is("close")
 \* ------------------------------------------------------------------ output files
 RECURSIVE Concat(_)
 Concat(fs) == IF fs = <<>> THEN <<>> ELSE Head(fs).recs \o Concat(Tail(fs))
-RecOK(r, h) == /\ Len(r.pid) = Len(h.recs) /\ Len(r.x) = Len(r.pid) /\ Len(r.age) = Len(r.pid) /\ Len(r.farm) = Len(r.pid)
+\* the file holds exactly the configured instance variables: a state variable that is not configured for output is absent
+Dropped(v) == \E i \in 1..Len(S.out.drop) : S.out.drop[i] = v
+RecOK(r, h) == /\ Len(r.pid) = Len(h.recs) /\ Len(r.x) = Len(r.pid) /\ Len(r.y) = Len(r.pid)
+               /\ Len(r.z) = (IF Dropped("Z") THEN 0 ELSE Len(r.pid))
+               /\ Len(r.age) = (IF Dropped("age") THEN 0 ELSE Len(r.pid))
+               /\ Len(r.farm) = (IF Dropped("farm") THEN 0 ELSE Len(r.pid))
                /\ \A i \in 1..Len(r.pid) : /\ r.pid[i] = h.recs[i].pid /\ r.x[i] = h.recs[i].x /\ r.y[i] = h.recs[i].y
-                                           /\ r.z[i] = h.recs[i].z /\ r.age[i] = h.recs[i].age /\ r.farm[i] = h.recs[i].farm
+                                           /\ (Dropped("Z") \/ r.z[i] = h.recs[i].z) /\ (Dropped("age") \/ r.age[i] = h.recs[i].age)
+                                           /\ (Dropped("farm") \/ r.farm[i] = h.recs[i].farm)
 \* names and numbers as module FileName prescribes for the configured stem (a warm start is configured with the next name of the chain)
 Proto == S.out.proto
 \* scalar forcing in a record (C06: the value the state held; C19 / C03 / C02: valid at the record's time and place, i.e. the
